@@ -204,4 +204,11 @@ def clone (h : Heap) (v : Val) (pre : String) : Heap × Val :=
     | none => (h, .nilIface)
   | _ => (h, .nilIface)
 
+/-- the heap invariant as a Boolean: links point forward, stay inside the heap and never reach an empty node
+    (`Lemmas/Errs.lean` proves `wfb h = true → WF h`); the model driver evaluates it on every heap it builds -/
+def wfb (h : Heap) : Bool :=
+  (List.range h.size).all (fun i => match nextOf h i with
+    | none => true
+    | some j => decide (i < j) && decide (j < h.size) && !isEmpty h j)
+
 end Errs
